@@ -202,6 +202,9 @@ def code_rules(ctx, chk, rule="C05.R5"):
             n += 1
             arg = j.args[0]
             ok = _longest_first(ctx, f, arg)
+            if ok is None:
+                chk.error(rule, "%s: cannot see where the alternation %s is sorted" % (f.qual, ast.unparse(arg)[:50]))
+                continue
             chk.ob(rule, "%s: alternation %s is built longest-first" % (f.qual, ast.unparse(arg)[:50]), ok,
                    "a shorter vocabulary entry that is a prefix of a longer one wins the alternation and splits the longer word",
                    key={"function": key, "construct": "longest-first alternation"}, file=f.file, function=f.qual, line=j.lineno)
@@ -215,26 +218,43 @@ def code_rules(ctx, chk, rule="C05.R5"):
 
 
 def _longest_first(ctx, f, arg, depth=0):
-    """the joined sequence comes from sorted(..., key=len, reverse=True), possibly through a getter or map(re.escape, ..)"""
+    """the joined sequence comes from sorted(..., key=len, reverse=True), possibly through a getter or map(re.escape, ..):
+    True / False (a sort is found and it is another one) / None (no sort found where this rule looks: cannot decide)"""
     if depth > 4:
-        return False
+        return None
+
+    def good(x):
+        kw = {k.arg: ast.unparse(k.value) for k in x.keywords}
+        return kw.get("key") == "len" and kw.get("reverse") == "True"
     if isinstance(arg, ast.Call):
         fn = ast.unparse(arg.func)
         if fn == "sorted":
-            kw = {k.arg: ast.unparse(k.value) for k in arg.keywords}
-            return kw.get("key") == "len" and kw.get("reverse") == "True"
+            return good(arg)
         if fn == "map" and len(arg.args) == 2:
             return _longest_first(ctx, f, arg.args[1], depth + 1)
-        # getter method: every return is the cache read; the value stored is sorted(...)
+        # getter method: every return is the cache read; the value stored is sorted(...) - in the getter or in what it calls to fill the cache
+        seen, work = set(), []
         for s in ctx.cg.sites.get(f.key, ()):
             if s.node is arg:
-                for c in s.callees:
-                    srt = [n for n in iter_own_nodes(c.node) if isinstance(n, ast.Call) and ast.unparse(n.func) == "sorted"]
-                    if srt and all({k.arg: ast.unparse(k.value) for k in x.keywords}.get("key") == "len"
-                                   and {k.arg: ast.unparse(k.value) for k in x.keywords}.get("reverse") == "True" for x in srt):
-                        return True
-        return False
+                work += [(c, 0) for c in s.callees]
+        srt = []
+        while work:
+            c, d_ = work.pop()
+            if c.key in seen or isinstance(c.node, ast.Lambda):
+                continue
+            seen.add(c.key)
+            here = [n for n in iter_own_nodes(c.node) if isinstance(n, ast.Call) and ast.unparse(n.func) == "sorted"]
+            srt += here
+            if not here and d_ < 2:
+                for s2 in ctx.cg.sites.get(c.key, ()):
+                    work += [(c2, d_ + 1) for c2 in s2.callees if c2.module is c.module]
+        if srt:
+            return all(good(x) for x in srt)
+        return None
     if isinstance(arg, ast.Name):
         defs = [n.value for n in iter_own_nodes(f.node) if isinstance(n, ast.Assign) and any(isinstance(t, ast.Name) and t.id == arg.id for t in n.targets)]
-        return bool(defs) and all(_longest_first(ctx, f, d, depth + 1) for d in defs)
-    return False
+        if not defs:
+            return None
+        res = [_longest_first(ctx, f, d, depth + 1) for d in defs]
+        return False if False in res else None if None in res else True
+    return None
